@@ -148,7 +148,7 @@ def main():
                 ctx.prog = progs[c]
                 mod.check(ctx)
             if tier == "thorough" and hasattr(mod, "thorough"):
-                ctx.config = "default"
+                ctx.config = "thorough-extra"
                 ctx.prog = progs["default"]
                 mod.thorough(ctx)
             if len(configs) > 1:
